@@ -358,7 +358,7 @@ def strat_blocks(draw, tier):
     nchans = c["layout"]["nchans"]
     c["ffactor"] = draw(st.sampled_from([f for f in range(1, nchans + 1) if nchans % f == 0]))
     c["tfactor"] = draw(st.integers(1, 4))
-    c["dm"] = draw(st.sampled_from([0.0, 1.0, 10.0, -5.0, 30.0]))
+    c["dm"] = draw(st.sampled_from([0.0, 1.0, 10.0, -5.0, 30.0, 300.0, -100.0, 3000.0]))
     c["ref"] = draw(st.sampled_from(["ch1", "max", "min", "center"]))
     c["dmsteps"] = draw(st.integers(2, 6))
     return c
@@ -409,6 +409,24 @@ def check_blocks(case, ctx):
             require(dmv.data.shape[0] == steps and dmv.header.nsamples == dmv.data.shape[1], "block.dmt_transform(valid):shape",
                     f"{s.ctxt}: data {dmv.data.shape}, header nsamples {dmv.header.nsamples}")
             lab.append("dmt_valid")
+    # read_dedisp_block for either band orientation and DM sign (delays of either sign): tstart is that of the
+    # requested start sample, whatever extra samples had to be read
+    dfile = np.asarray(s.rd.header.get_dmdelays(dm)).reshape(-1)
+    lo, hi = int(dfile.min()), int(dfile.max())
+    st0 = max(s.start, -min(0, lo))
+    nb = (s.N - st0 - max(0, hi)) // 2
+    if nb >= 1:
+        import contextlib
+        import io
+
+        with contextlib.redirect_stdout(io.StringIO()):
+            db = s.call("read_dedisp_block", lambda: s.rd.read_dedisp_block(st0, nb, dm))
+        require(db.data.shape == (n, nb) and db.header.nsamples == nb and db.header.nchans == n, "read_dedisp_block:shape", s.ctxt)
+        require(db.dm == dm, "read_dedisp_block:dm", f"{db.dm!r} vs {dm!r}")
+        s.tstart_ok("read_dedisp_block", db.header.tstart, st0)
+        s.labels_ok("read_dedisp_block", db.header.fch1, db.header.foff, n, ident(n))
+        if lo < 0:
+            lab.append("rdb_negative_delays")
     o = s.call("block.to_file", lambda: blk.to_file(s.out("blk.fil")))
     s.file_meta("block.to_file", o, s.eff, n, 32, ident(n))
     return Info(s.nontrivial or tf * ff > 1, tuple(lab))
